@@ -232,7 +232,22 @@ def run_case(b: Batch, cfg, filters, led, tp, _retry=False):
                     b.count("inconclusive_pairing_difference")
                     continue
                 lost = [e for e in want if e not in got]
-                if not _retry and lost and not [e for e in got if e not in want] and all(e.event_type in ("moved", "modified") for e in lost):
+                extra_ = [e for e in got if e not in want]
+                ren_src = {os.path.join(sess.root, o[1][len(u.root_name) + 1:]) for o in ops if o[0] == "rename"}
+                ren_dst = {os.path.join(sess.root, o[2][len(u.root_name) + 1:]) for o in ops if o[0] == "rename"}
+
+                def split_artifact(e):
+                    # an event that exists only because one of the two inotify instances delivered a rename as deleted + created
+                    # (its two halves were read more than the pairing delay apart under load) while the other paired it
+                    if e.event_type == "moved":
+                        return e.src_path in ren_src or e.is_synthetic
+                    if e.event_type == "created":
+                        return e.src_path in ren_dst or e.is_synthetic
+                    if e.event_type == "deleted":
+                        return e.src_path in ren_src
+                    return e.event_type == "modified" and e.is_directory
+
+                if not _retry and (lost or extra_) and all(split_artifact(e) for e in lost + extra_):
                     # could be the two inotify instances pairing a rename differently under load (the filter hides the
                     # deleted/created halves): run the very same case once more and judge that run
                     b.count("retried_possible_pairing_difference")
